@@ -37,7 +37,7 @@ class Source:
                     continue
                 hf = self.fn_at(hb.file, hb.line)
                 if hf is not None and hf is not host:
-                    self._extra.setdefault(id(host), {})[id(hf)] = hf
+                    self._extra.setdefault(id(host), {})[hp] = hf
 
     def _merged(self, fn):
         extra = self._extra.get(id(fn))
@@ -46,9 +46,11 @@ class Source:
         m = dict(fn)
         for key in ("strings", "let_underscore"):
             m[key] = list(fn.get(key, []))
-            for hf in extra.values():
+            for hf in {id(h): h for h in extra.values()}.values():
                 m[key].extend(hf.get(key, []))
         m["merged_helpers"] = sorted(hf["name"] for hf in extra.values())
+        m["helper_fns"] = dict(extra)      # MIR path of the expanded helper -> its source function
+        m["own_strings"] = list(fn.get("strings", []))
         return m
 
     def file(self, path):
